@@ -719,3 +719,6 @@ for _p in ("C10", "C17", "C09"):
     PROPS[_p]["claim"] += (" SESSION-LESS HISTORY about the translated code (Proofs/EndToEnd/SessionlessHistory.lean): generated_sessionless_history — command after command on one session-less connection value threaded by "
                            "SendCommand AS TRANSLATED, each call sends and returns the documented contract OF THAT CALL ALONE (slExpected-many copies of that command's one serialisation), whatever the earlier calls were or left behind "
                            "and whatever value the connection started from (_ignores_connection); every datagram has null session ID and sequence number (_null).")
+PROPS["C09"]["proofs"] = PROPS["C09"]["proofs"] + ["Bmc.Proofs.EndToEnd.WholeC09"]
+PROPS["C09"]["claim"] += (" WHOLE (Proofs/EndToEnd/WholeC09.lean): generated_session_then_history_sequence_numbers — from the session newV2Session AS TRANSLATED returns against the specification's BMC, any history on SendCommand AS TRANSLATED "
+                          "sends sequence numbers 1, 2, 3, … in order, all addressed to the session ID the BMC chose.")
